@@ -17,7 +17,6 @@ import (
 	"fmt"
 	"io/ioutil"
 	"math"
-	"math/big"
 	"net/http"
 	"net/http/httptest"
 	"net/url"
@@ -164,12 +163,7 @@ func vC19Members(js []byte) (vSx, map[string]interface{}, bool) {
 	sort.Strings(keys)
 	var out []vSx
 	for _, k := range keys {
-		if k == "code" || k == "server" {
-			if z, ok := new(big.Int).SetString(string(raw[k]), 10); ok {
-				out = append(out, vL(vS(k), vL(vZ(7), vBig(z))))
-				continue
-			}
-		}
+		// exact integer codes are compared through the complete body bytes
 		out = append(out, vL(vS(k), vC19Tree(plain[k])))
 	}
 	return vLs(out), plain, true
@@ -180,7 +174,10 @@ var vC19Pieces = []string{"a", "b", "Z", " ", "\"", "\"", "\\", "\\", "/", "<", 
 	"\xc3\xa9", "\xe4\xb8\xad", "\xf0\x9f\x98\x80", "\xe2\x80\xa8", "\xe2\x80\xa9", "\xef\xbf\xbd", "{", "}", "[", "]", ":", ",", "code", "null", "\\u0041", "(", ")",
 	"%", "%", "%s", "%d", "%v", "%!", "%%", "%!(NOVERB)", "100%", "%5.2f", "%[1]s", "%+q", "%x", "({", "})", "cb(", ");"}
 
-func vC19Str(r *vRng) string {
+// byte sequences that are not valid UTF-8: stray continuation, truncated, overlong, surrogate, > U+10FFFF
+var vC19BadUtf8 = []string{"\xff", "\x80", "\xbf", "\xc3", "\xe4\xb8", "\xf0\x9f\x98", "\xc0\xaf", "\xe0\x80\xaf", "\xed\xa0\x80", "\xf4\x90\x80\x80", "\xf5", "\xc3\x28"}
+
+func vC19Key(r *vRng) string {
 	n := r.pickInt(0, 1, 1, 2, 3, 5, 9)
 	s := ""
 	for i := 0; i < n; i++ {
@@ -188,6 +185,54 @@ func vC19Str(r *vRng) string {
 	}
 	return s
 }
+
+func vC19Str(r *vRng) string {
+	n := r.pickInt(0, 1, 1, 2, 3, 5, 9)
+	bad := r.chance(1, 6)
+	s := ""
+	for i := 0; i < n; i++ {
+		if bad && r.chance(1, 3) {
+			s += r.pickStr(vC19BadUtf8...)
+		} else {
+			s += r.pickStr(vC19Pieces...)
+		}
+	}
+	return s
+}
+
+// what a JSON document can carry of a Go value: every byte that does not start a valid UTF-8
+// sequence becomes U+FFFD (the conversion to []rune does exactly that, byte by byte)
+func vC19Coerce(v interface{}) interface{} {
+	switch x := v.(type) {
+	case string:
+		return string([]rune(x))
+	case []interface{}:
+		out := make([]interface{}, len(x))
+		for i, e := range x {
+			out[i] = vC19Coerce(e)
+		}
+		return out
+	case map[string]interface{}:
+		out := make(map[string]interface{}, len(x))
+		for k, e := range x {
+			out[k] = vC19Coerce(e)
+		}
+		return out
+	}
+	return v
+}
+
+// a replaced FilterData hook returns one of these
+type vC19Filtered struct{ m map[string]interface{} }
+
+func (f vC19Filtered) MarshalJSON() ([]byte, error) { return json.Marshal(f.m) }
+
+type vC19FilteredSt struct {
+	vC19Filtered
+	st int
+}
+
+func (f vC19FilteredSt) Status() int { return f.st }
 
 func vC19Float(r *vRng) uint64 {
 	switch r.intn(8) {
@@ -256,7 +301,7 @@ func vC19GenValue(r *vRng, depth int, bad bool) vSx {
 		if r.chance(1, 4) {
 			keys[r.pickStr("code", "data", "server", "", "callback")] = true
 		} else {
-			keys[vC19Str(r)] = true
+			keys[vC19Key(r)] = true
 		}
 	}
 	ks := make([]string, 0, n)
@@ -340,7 +385,31 @@ func vC19Gen(r *vRng) vSx {
 	if r.chance(1, 9) {
 		return vL(vL(vZ(5), vS(vC19Version(r))), vS(cb), vS(srv), vZ(0), vI(r.intn(3)))
 	}
-	switch r.intn(9) {
+	switch r.intn(10) {
+	case 9:
+		// a replaced FilterData hook returning an arbitrary object, possibly with its own status
+		members := []vSx{vZ(5)}
+		switch r.intn(6) {
+		case 0:
+		case 1:
+			members = append(members, vL(vS("code"), vL(vZ(3), vS(r.pickStr("0", "x")))))
+		case 2:
+			members = append(members, vL(vS("code"), vL(vZ(0))))
+		default:
+			f := r.pickInt(0, 0, 0, 1, 5, -3, 100000)
+			fv := float64(f)
+			if r.chance(1, 5) {
+				fv += 0.5
+			}
+			members = append(members, vL(vS("code"), vL(vZ(2), vU(math.Float64bits(fv)))))
+		}
+		if r.chance(2, 3) {
+			members = append(members, vL(vS("data"), vC19GenValue(r, 1, r.chance(1, 6))))
+		}
+		if r.chance(1, 3) {
+			members = append(members, vL(vS("zz"), vL(vZ(3), vS(vC19Str(r)))))
+		}
+		p = vL(vZ(6), vI(r.pickInt(-1, -1, 200, 201, 299, 400, 404, 500, 503)), vLs(members), vS(""), vL(vZ(0)))
 	case 0, 1, 2:
 		p = vL(vZ(0), vC19GenValue(r, 0, false), vS(""), vL(vZ(0)))
 	case 3:
@@ -409,6 +478,9 @@ func vC19Run(k *vKit, env *vC19Env, c vSx) {
 	st := -1
 	nontrivial := false
 	Server = srv
+	savedFilter := FilterData
+	defer func() { FilterData = savedFilter }()
+	var rawMembers map[string]interface{}
 	var expect interface{} // the object the body must be the JSON of (nil: a text body)
 	build := func() {
 		switch kind {
@@ -462,6 +534,26 @@ func vC19Run(k *vKit, env *vC19Env, c vSx) {
 			} else {
 				h = Error(nil, vC19Plain{st, msg})
 			}
+		case 6:
+			st = p.l[1].int()
+			mm, _ := vC19Value(p.l[2], &unm).(map[string]interface{})
+			if mm == nil {
+				mm = map[string]interface{}{}
+			}
+			rawMembers = mm
+			var fv interface{} = vC19Filtered{mm}
+			if st >= 0 {
+				fv = vC19FilteredSt{vC19Filtered{mm}, st}
+			}
+			if _, err := json.Marshal(fv); err != nil {
+				merr = err.Error()
+			} else {
+				expect = fv
+			}
+			FilterData = func(ctx ol.Context, w http.ResponseWriter, r *http.Request, o interface{}) interface{} { return fv }
+			p = vL(vZ(6), vI(st), p.l[2], vS(merr), vC19View([]byte(merr+"\n")))
+			h = Data(nil, "ignored by the hook")
+			nontrivial = true
 		case 5:
 			msg = string(p.l[1].b)
 			expect = map[string]interface{}{"code": 0, "server": pid, "data": vC19VersionObj(msg, srv)}
@@ -469,7 +561,7 @@ func vC19Run(k *vKit, env *vC19Env, c vSx) {
 			nontrivial = strings.Contains(msg, "-") && strings.Contains(msg, ".")
 		}
 	}
-	if kind < 0 || kind > 5 {
+	if kind < 0 || kind > 6 {
 		k.record(c, bad, false)
 		return
 	}
@@ -486,7 +578,12 @@ func vC19Run(k *vKit, env *vC19Env, c vSx) {
 	if expect != nil {
 		mb, _ = json.Marshal(expect)
 	}
-	c = vL(p, c.l[1], c.l[2], vI(pid), c.l[4], vB(mb))
+	// what the client's decoder makes of the text callback(json) (the harness's own call)
+	jtv := vL(vZ(0))
+	if cb != "" && expect != nil {
+		jtv = vC19View([]byte(cb + "(" + string(mb) + ")"))
+	}
+	c = vL(p, c.l[1], c.l[2], vI(pid), c.l[4], vB(mb), jtv)
 
 	// the response itself
 	q := ""
@@ -539,9 +636,9 @@ func vC19Run(k *vKit, env *vC19Env, c vSx) {
 	clientObs := vL()
 	var cCode int
 	var cErr error
-	if cb == "" {
+	{
 		env.h = h
-		if msg := vPanicText(func() { cCode, _, cErr = ApiRequest(env.srv.URL + "/api") }); msg != "" {
+		if msg := vPanicText(func() { cCode, _, cErr = ApiRequest(env.srv.URL + "/api" + q) }); msg != "" {
 			idx := k.record(c, vPanicObs(), nontrivial)
 			k.fail(idx, c.size(), "no-panic", "", "ApiRequest panicked: "+msg)
 			return
@@ -612,7 +709,7 @@ func vC19Run(k *vKit, env *vC19Env, c vSx) {
 			fail("success-envelope", "", "body is not a JSON object: "+show(body))
 			break
 		}
-		want := map[string]interface{}{"code": float64(0), "server": float64(pid), "data": val}
+		want := map[string]interface{}{"code": float64(0), "server": float64(pid), "data": vC19Coerce(val)}
 		if !reflect.DeepEqual(parsed, want) {
 			fail("success-envelope", "", fmt.Sprintf("body %s does not decode to {code 0, server %d, data <the value>}", show(body), pid))
 		}
@@ -624,7 +721,7 @@ func vC19Run(k *vKit, env *vC19Env, c vSx) {
 		if rec.Code != 500 || ctCode != 2 || string(body) != merr+"\n" || merr == "" {
 			fail("unmarshalable-error-response", "", fmt.Sprintf("status %d type %q body %s; want 500 text %q", rec.Code, ct, show(body), merr))
 		}
-		if cb == "" && cErr == nil {
+		if cErr == nil {
 			fail("never-confused", "", "ApiRequest read the response for an unmarshalable value as success")
 		}
 	case kind >= 1 && kind <= 3:
@@ -646,13 +743,13 @@ func vC19Run(k *vKit, env *vC19Env, c vSx) {
 		dec.UseNumber()
 		if err := dec.Decode(&got); err != nil || got.Code == nil || got.Code.String() != fmt.Sprint(code) {
 			fail("error-code-response", "", fmt.Sprintf("body %s does not carry code %d", show(body), code))
-		} else if kind == 1 && got.Data != nil || kind != 1 && (got.Data == nil || *got.Data != msg) {
+		} else if kind == 1 && got.Data != nil || kind != 1 && (got.Data == nil || *got.Data != string([]rune(msg))) {
 			fail("error-code-response", "", fmt.Sprintf("body %s does not carry the message %q", show(body), msg))
 		}
-		if cb == "" && code != 0 {
+		if code != 0 {
 			if cErr == nil {
 				fail("never-confused", "", fmt.Sprintf("ApiRequest read error code %d as success", code))
-			} else if exact(code) && int64(cCode) != code {
+			} else if cb == "" && exact(code) && int64(cCode) != code {
 				fail("client-code", "", fmt.Sprintf("ApiRequest reports code %d for error code %d", cCode, code))
 			}
 		}
@@ -689,6 +786,33 @@ func vC19Run(k *vKit, env *vC19Env, c vSx) {
 		if cb == "" && (cErr != nil || cCode != 0) {
 			fail("client-success", "", fmt.Sprintf("ApiRequest on the version response: code %d err %v", cCode, cErr))
 		}
+	case kind == 6:
+		// a replaced FilterData hook: its object is what is sent, with the status it declares
+		wantSt := st
+		if st < 0 {
+			wantSt = 200
+		}
+		if unm {
+			if rec.Code != 500 || ctCode != 2 || string(body) != merr+"\n" || merr == "" {
+				fail("unmarshalable-error-response", "", fmt.Sprintf("status %d type %q body %s; want 500 text %q", rec.Code, ct, show(body), merr))
+			}
+			if cErr == nil {
+				fail("never-confused", "", "ApiRequest read the response for an unmarshalable hook value as success")
+			}
+			break
+		}
+		if rec.Code != wantSt || ct != wantCt {
+			fail("filter-hook-response", "", fmt.Sprintf("status %d content type %q, want %d %q", rec.Code, ct, wantSt, wantCt))
+		}
+		if cb == "" {
+			// the client half as its documentation describes it: code must be a number, non-zero is an
+			// error, and (fix 219c663) code 0 is success only with HTTP 2xx
+			f, isNum := rawMembers["code"].(float64)
+			wantErr := !isNum || int(f) != 0 || wantSt < 200 || wantSt >= 300
+			if (cErr != nil) != wantErr {
+				fail("filter-hook-client", "", fmt.Sprintf("ApiRequest on %s (status %d): err %v", show(body), wantSt, cErr))
+			}
+		}
 	case kind == 4:
 		wantSt := st
 		if st < 0 {
@@ -697,7 +821,7 @@ func vC19Run(k *vKit, env *vC19Env, c vSx) {
 		if rec.Code != wantSt || ctCode != 2 || string(body) != msg+"\n" {
 			fail("plain-error-response", "", fmt.Sprintf("status %d type %q body %s; want %d text %q", rec.Code, ct, show(body), wantSt, msg))
 		}
-		if cb == "" && cErr == nil {
+		if cErr == nil {
 			key := ""
 			tv := p.l[3]
 			if wantSt >= 200 && wantSt < 300 && len(tv.l) == 2 && tv.l[0].int() == 3 && tv.l[1].i64() == 0 {
